@@ -46,17 +46,13 @@ where
 /**
 Wait for a channel potentially running on a `tokio` thread to process all items active at the point this call was made.
 
-If the current thread is a `tokio` thread then this call will be executed using [`tokio::task::block_in_place`] to avoid starving other work.
+This call blocks the current thread for up to `timeout`, whether or not it's a `tokio` thread. It never tries to enter or hand off the current runtime, so it's safe to call from any context, including current-thread runtimes and `LocalSet`s. Prefer [`flush`] in asynchronous code.
 */
 pub fn blocking_flush<T: Channel>(sender: &Sender<T>, timeout: Duration) -> bool {
-    match tokio::runtime::Handle::try_current() {
-        // If we're on a multi-threaded `tokio` runtime then tell it we're about to block
-        Ok(handle) if handle.runtime_flavor() == tokio::runtime::RuntimeFlavor::MultiThread => {
-            tokio::task::block_in_place(|| sync::blocking_flush(sender, timeout))
-        }
-        // In any other case run a regular blocking variant
-        _ => sync::blocking_flush(sender, timeout),
-    }
+    // NOTE: `Handle::block_on` panics inside a runtime and `block_in_place` panics
+    // on current-thread runtimes and inside `LocalSet`s, with no way to probe for either.
+    // The receiver runs on its own thread, so a regular blocking wait always makes progress
+    sync::blocking_flush(sender, timeout)
 }
 
 /**
@@ -82,14 +78,8 @@ pub fn blocking_send<T: Channel>(
     msg: T::Item,
     timeout: Duration,
 ) -> Result<(), BatchError<T::Item>> {
-    match tokio::runtime::Handle::try_current() {
-        // If we're on a multi-threaded `tokio` runtime then tell it we're about to block
-        Ok(handle) if handle.runtime_flavor() == tokio::runtime::RuntimeFlavor::MultiThread => {
-            tokio::task::block_in_place(|| sync::blocking_send(sender, msg, timeout))
-        }
-        // In any other case run a regular blocking variant
-        _ => sync::blocking_send(sender, msg, timeout),
-    }
+    // NOTE: See the note in `blocking_flush`
+    sync::blocking_send(sender, msg, timeout)
 }
 
 /**
